@@ -101,12 +101,6 @@ def handleStr : List Sx → Sx
     | none => Sx.bad
   | _ => Sx.bad
 
-/-- the body contains no backslash-in-escape-position followed by a non-ASCII code point (finding F13) -/
-def f13Free : List Nat → Bool
-  | [] => true
-  | 92 :: c :: r => c < 128 && f13Free r
-  | _ :: r => f13Free r
-
 /-- `(lit-body (cp…))`: the text between the quotes → `(<model> <spec> f13free)` -/
 def handleBody : List Sx → Sx
   | [cps] =>
